@@ -1084,6 +1084,32 @@ static bool check_tid_list(void)
 	return true;
 }
 
+/*
+ * FORK_END can only arrive through the pipe.  Once every writer has closed it
+ * (no tracee is left) and it is empty, a task added by FORK_START (tid == -1)
+ * will never get its tid: the fork failed or the child died too early.
+ */
+static bool drop_pending_forks(int pfd)
+{
+	struct pollfd pollfd = {
+		.fd = pfd,
+		.events = POLLIN,
+	};
+	struct tid_list *tl;
+	bool dropped = false;
+
+	if (poll(&pollfd, 1, 0) < 0 || (pollfd.revents & POLLIN) || !(pollfd.revents & POLLHUP))
+		return false;
+
+	list_for_each_entry(tl, &tid_list_head, list) {
+		if (tl->tid == -1 && !tl->exited) {
+			tl->exited = true;
+			dropped = true;
+		}
+	}
+	return dropped;
+}
+
 struct dlopen_list {
 	struct list_head list;
 	char *libname;
@@ -1922,6 +1948,9 @@ static int stop_tracing(struct writer_data *wd, struct uftrace_opts *opts)
 		 */
 		if (check_tid_list())
 			break;
+
+		if (drop_pending_forks(wd->pipefd))
+			continue;
 
 		if (finish_received) {
 			status = UFTRACE_EXIT_FINISHED;
